@@ -9,6 +9,51 @@ table functions and methods are function-typed inputs on ids (`('.subtract', 'F:
 function of the object and its argument).  The theorems hold under EVERY reading `tbl : Z -> list grow` of ids as tables in
 which the function inputs are the model's operations: the table the generated definition returns is then the model's result.
 `if accessible:` on a table id reads id 0 as the falsy table (None or no rows).
+
+FnAntiFlow -- get_antitargets, from the first `if` to `bg_arr["gene"] = ANTITARGET_NAME`: which branch supplies the accessible
+  regions (drop_noncanonical_contigs / guess_chromosome_regions with the literal 150000), pad_size = 2 * INSERT_SIZE, the
+  chain accessible.resize_ranges(-pad).subtract(targets.resize_ranges(pad)).subdivide(avg, min), the name.
+  Tie (C12_source_get_antitargets, C12_source_get_antitargets_body): Model/Antitarget.v get_antitargets IS the generated body
+  under every reading in which the five function inputs are the model's operations.
+  Mutations (each breaks Proofs/FnAntiFlow.v):
+    `accessible.resize_ranges(-pad_size)` -> `accessible.resize_ranges(pad_size)`
+    `if accessible:` -> `if not accessible:`
+    `.subdivide(avg_bin_size, min_bin_size)` -> `.subdivide(avg_bin_size, 0)`
+    `pad_size = 2 * INSERT_SIZE` -> `pad_size = INSERT_SIZE`
+    `guess_chromosome_regions(targets, TELOMERE_SIZE)` -> `guess_chromosome_regions(targets, 0)`
+
+FnAntiDo -- do_antitarget, the whole body (min_bin_size an integer, 0 = not given).
+  Tie (C12_source_do_antitarget): Model/Antitarget.v do_antitarget IS the generated body: the default minimum
+  (Gen/FnBins.v fn_effective_min) exactly when none is given, then get_antitargets(targets, access, avg, min).
+  Mutations (each breaks Proofs/FnAntiDo.v):
+    `get_antitargets(targets, access, avg_bin_size, min_bin_size)` -> `(targets, access, avg_bin_size, 0)`
+    `get_antitargets(targets, access, ...)` -> `get_antitargets(access, targets, ...)`
+    `if not min_bin_size:` -> `if min_bin_size:`   (also refused by the older fragment spec FnBins)
+
+FnTargetFlow -- do_target, the whole body (spec key `raising_calls`: the statement antitarget.compare_chrom_names(..) is the
+  boolean result `raised__`; the row filter of the second statement is the opaque table `nonzero_id`, its mask is FnTargetZero's).
+  Tie (C12_source_do_target): Model/Target.v do_target_full IS the generated body: split first (minimum 0), then the
+  annotation (name check, nothing written into an empty table, into_ranges on "gene" with default "-"), then the shortening.
+  Mutations (each breaks Proofs/FnTargetFlow.v):
+    `if do_split:` -> `if not do_split:`
+    `tgt_arr.subdivide(avg_size, 0)` -> `tgt_arr.subdivide(avg_size, 1)`
+    `if len(tgt_arr):` -> `if not len(tgt_arr):`
+    `into_ranges(tgt_arr, "gene", "-")` -> `into_ranges(tgt_arr, "gene", "")`
+    `antitarget.compare_chrom_names(tgt_arr, annotation)` -> `pass`
+    `list(shorten_labels(tgt_arr["gene"]))` -> `list(tgt_arr["gene"])`
+    `if do_short_names:` -> `if do_short_names and not annotate:`
+
+FnChromNames -- compare_chrom_names: the raising test (located with `ast`) and the returned pair.
+  Tie (C12_source_compare_chrom_names): Model/Target.v compare_chrom_names IS the generated body.
+  Mutations: `if a_chroms and a_chroms.isdisjoint(b_chroms):` -> `if a_chroms.isdisjoint(b_chroms):` and
+    -> `if a_chroms and not a_chroms.isdisjoint(b_chroms):` break Proofs/FnChromNames.v;
+    `return a_chroms, b_chroms` -> `return b_chroms, a_chroms` is REFUSED (shape check of the spec).
+
+FnGuessRegions -- guess_chromosome_regions per chromosome: the "start" / "end" entries of the dict display (located with `ast`).
+  Tie (C12_source_guess_regions): Model/Antitarget.v guess_regions IS the generated row for every target chromosome.
+  Mutations: `"start": telomere_size` -> `"start": 0` and `"end": endpoints` -> `"end": telomere_size` break
+    Proofs/FnGuessRegions.v; `subarr.end.iat[-1]` -> `subarr.end.iat[0]` is REFUSED (unsupported expression ListComp: the
+    comprehension is an opaque input keyed by its source text).
 """
 import ast, os, sys
 
